@@ -16,7 +16,7 @@ func fmtPipfile() *format {
 			{Name: "requests", Version: "12.31.0", Tag: "plain"},
 			{Name: "zope.interface", Version: "6.0", Tag: "dotted-name"},
 			{Name: "typing-extensions", Version: "4.7.1", Tag: "hyphen-name"},
-			{Name: "q", Version: "0.2.5", Tag: "single-char-name"},
+			{Name: "q", Version: "7", Tag: "single-char-name-and-version"},
 			{Name: "requests1", Version: "2.31.0", Tag: "name+version-concat-equals-plain"},
 			{Name: "pyyaml", Version: "1!6.0rc1.post1", Tag: "epoch-pre-post"},
 		},
